@@ -35,7 +35,7 @@ pub struct Cfg {
 #[derive(Serialize, Deserialize, Clone, Debug)]
 pub struct Case {
     pub cfg: Cfg,
-    /// "choices": explorer choice vector; or a fixed pattern: "one" / "two" / "e+1" / "alt" / "file" / "bufreader"
+    /// "choices": explorer choice vector; or a fixed pattern: "one" / "two" / "e+1" / "alt" / "file" / "bufreader" / "cursor" / "cursor-bufreader" / "take-chain" (Cursor over a boxed slice)
     pub mode: String,
     pub choices: Vec<u32>,
 }
@@ -220,6 +220,55 @@ fn run_fixed(cfg: &Cfg, want: &[Vec<u8>], mode: &str) -> Obs {
                 "alternating-chunk stream",
             )
         }
+        "cursor" | "cursor-bufreader" | "take-chain" => {
+            // standard-library readers used as they come: std::io::Cursor (whose read_exact copies nothing when
+            // the data is short), a BufReader over it, and a Chain of two Cursors is not seekable - so a Cursor
+            // over a boxed slice stands for "another std reader with its own read_exact"
+            let mut obs = Obs::default();
+            let r = catch(|| -> Result<Vec<Vec<u8>>, String> {
+                use std::io::Seek;
+                let o = spec(cfg);
+                let data = o.content();
+                let pos = match cfg.start_pos {
+                    0 => 0,
+                    1 => 1.min(data.len() as u64),
+                    2 => data.len() as u64 / 2,
+                    _ => data.len() as u64,
+                };
+                let url = url::Url::parse(&o.location).unwrap();
+                let desc = match mode {
+                    "cursor" => {
+                        let mut c = std::io::Cursor::new(data);
+                        c.seek(std::io::SeekFrom::Start(pos)).map_err(|e| e.to_string())?;
+                        ObjectDesc::create_from_stream(Box::new(c), &o.ctype, &url, !cfg.no_md5, o.transfer_config()?)
+                    }
+                    "cursor-bufreader" => {
+                        let mut c = std::io::BufReader::with_capacity(5, std::io::Cursor::new(data));
+                        c.seek(std::io::SeekFrom::Start(pos)).map_err(|e| e.to_string())?;
+                        ObjectDesc::create_from_stream(Box::new(c), &o.ctype, &url, !cfg.no_md5, o.transfer_config()?)
+                    }
+                    _ => {
+                        let mut c = std::io::Cursor::new(data.into_boxed_slice());
+                        c.seek(std::io::SeekFrom::Start(pos)).map_err(|e| e.to_string())?;
+                        ObjectDesc::create_from_stream(Box::new(c), &o.ctype, &url, !cfg.no_md5, o.transfer_config()?)
+                    }
+                }
+                .map_err(|e| e.0.to_string())?;
+                emit(cfg, desc)
+            });
+            match r {
+                Ok(Ok(got)) => obs.violation = compare(cfg, mode, &got, want),
+                Ok(Err(e)) => {
+                    if e.starts_with("add_object") {
+                        obs.refused = true;
+                    } else {
+                        obs.violation = Some(("C20/stream-session-failed".into(), e));
+                    }
+                }
+                Err(p) => obs.violation = Some((format!("C20/panic/{}", panic_sig(&p)), format!("panic: {}", p))),
+            }
+            obs
+        }
         _ => {
             // real temp file, through create_from_file (not cached in RAM) or a BufReader with a tiny buffer
             let mut obs = Obs::default();
@@ -334,7 +383,7 @@ pub fn run(thorough: bool) -> i32 {
                 return (out, 0u64, 0u64, false);
             }
         };
-        for mode in ["one", "two", "e+1", "alt", "file", "bufreader"] {
+        for mode in ["one", "two", "e+1", "alt", "file", "bufreader", "cursor", "cursor-bufreader", "take-chain"] {
             out.push((Case { cfg: cfg.clone(), mode: mode.into(), choices: vec![] }, run_fixed(cfg, &want, mode)));
         }
         // deviation-bounded exploration of per-read sizes, single-threaded inside this worker
